@@ -106,6 +106,25 @@ def bounded(params):
                             bad.append("monotone(stricter threshold added a match)")
                     if lm:
                         nontrivial.add((a, b, metric, many, thr))
+                    if lm is not None and not bad and thr == order[len(order) // 2]:
+                        # the public entry point: the matched pair must carry exactly this matching (relabelled prediction, C04 clauses),
+                        # also with the prediction ids renamed so that they cross the reference ids
+                        from .c04 import check_relabel
+                        for ren in ({}, {1: 2, 2: 1}, {1: 3, 3: 1}):
+                            pr = np.array([ren.get(int(x), int(x)) for x in pa], np.uint8)
+                            try:
+                                mt_ = _matcher(metric, thr, many)
+                                lm_r = dict(mt_._match_instances(UnmatchedInstancePair(pr.copy(), ra.copy())).labelmap)
+                                out = mt_.match_instances(UnmatchedInstancePair(pr.copy(), ra.copy()))
+                                rb = check_relabel(pr, ra, lm_r, out.prediction_arr, out.reference_arr)
+                                want_matched = sorted(set(lm_r.values()))
+                                if sorted(int(x) for x in out.matched_instances) != want_matched:
+                                    rb.append(f"matched_instances {sorted(int(x) for x in out.matched_instances)} but the matching assigns references {want_matched}")
+                            except Exception as e:
+                                rb = [f"match_instances raised {type(e).__name__}: {e}"[:160]]
+                            if rb:
+                                bad += [f"match_instances (prediction ids renamed by {ren}): {x}" for x in rb[:2]]
+                                break
                     if bad and len(failures) < 5:
                         wc = None
                         if exc and many and exc.startswith("Exception: You are mapping a prediction label"):
